@@ -288,6 +288,8 @@ class Taint(ast.NodeVisitor):
             if nm in PLAIN_FUNCS or rootn in RAW:
                 return False
             return any(self.expr_maybe(a) for a in e.args) or any(self.expr_maybe(k.value) for k in e.keywords) or (isinstance(fn, ast.Attribute) and self.expr_maybe(fn.value))
+        if isinstance(e, ast.BoolOp):
+            return any(self.expr_maybe(v) for v in e.values)
         if isinstance(e, (ast.BinOp,)):
             return self.expr_maybe(e.left) or self.expr_maybe(e.right)
         if isinstance(e, ast.UnaryOp):
@@ -303,6 +305,9 @@ class Taint(ast.NodeVisitor):
         if isinstance(e, (ast.ListComp, ast.GeneratorExp)):
             return self.expr_maybe(e.elt)
         return False
+
+
+BRANCH_HITS = []
 
 
 def analyse_rule_function(rel, qual, node, params, rep_hits):
@@ -332,6 +337,11 @@ def analyse_rule_function(rel, qual, node, params, rep_hits):
                         t.maybe.add(nm.id)
                         changed = True
     for c in ast.walk(node):
+        # (d) control flow on the VALUE of a possibly-traced quantity (cotangent, primal argument, answer): the branch taken is frozen into the
+        #     recorded graph, so every derivative of the rule is that of ONE branch (pruned terms vanish at all higher orders)
+        if isinstance(c, (ast.If, ast.IfExp, ast.While, ast.Assert)) and t.expr_maybe(c.test):
+            BRANCH_HITS.append((rel, qual, c.lineno, ast.unparse(c.test)[:90]))
+    for c in ast.walk(node):
         if isinstance(c, ast.Call):
             root = c.func
             while isinstance(root, ast.Attribute):
@@ -344,6 +354,7 @@ def analyse_rule_function(rel, qual, node, params, rep_hits):
 
 def run_trace(rep, tier):
     n_fun = 0
+    del BRANCH_HITS[:]
     for rel in RULE_FILES:
         path = os.path.join(REPO, rel)
         tree = ast.parse(open(path).read())
@@ -400,5 +411,16 @@ def run_trace(rep, tier):
             if not ok:
                 rep.violation("E5c:traceability", f"{rel_}:{qual}:{fname}", f"{rel_}:{line} in {qual}: raw NumPy call `{text}` receives a value that is a Box at higher order - derivatives of this rule are wrong or crash",
                               witness=False, solver_output=f"{rel_}:{line}: {text}")
+    for rel_, qual, line, text in BRANCH_HITS:
+        ok = (rel_, qual, "branch") in AUDITED_RAW
+        if not ok and rep.is_known("E5d:value-dependent-branch", f"{rel_}:{qual}:{text[:50]}"):
+            # a recorded finding: reported as KNOWN-FINDING, counted neither as discharged nor as undischarged
+            rep.violation("E5d:value-dependent-branch", f"{rel_}:{qual}:{text[:50]}", "known")
+            continue
+        rep.obligation(f"E5d:{rel_}:{qual}:branch@{text[:40]}", ok, "ast-abstract-interpretation", 0, "E5", sample=f"{rel_}:{line}: if {text}")
+        if not ok:
+            rep.violation("E5d:value-dependent-branch", f"{rel_}:{qual}:{text[:50]}", f"{rel_}:{line} in {qual}: the rule branches on the VALUE of a possibly traced quantity (`{text}`): "
+                          "the branch taken at the evaluation point is frozen into the graph, so higher-order derivatives lose the terms of the other branch", witness=False, solver_output=f"{rel_}:{line}: {text}")
+    rep.extra["e5d_value_dependent_branch_sites"] = len(BRANCH_HITS)
     rep.obligation("E5c:rule-functions-scanned", n_fun > 100, "ast-abstract-interpretation", 0, "E5", sample=f"{n_fun} rule functions/lambdas analysed")
     rep.extra["e5c_rule_functions"] = n_fun
